@@ -29,6 +29,10 @@
 (*                            grid, copies, handed out as a new user object *)
 (*   AtomOp(m, d)             integrate_angular_coordinates at r ~ 0 etc.:  *)
 (*                            internal angular grid, read only              *)
+(*   NewAtomRot / NewMol      rotated atomic grid, two-atom molecular grid  *)
+(*   NewAtomSet(m, D)         atomic grid whose shells use the degrees D    *)
+(*                            (degree / size lists, pruned, preset)         *)
+(*   Use(o)                   read-only use of a returned grid              *)
 (***************************************************************************)
 EXTENDS Integers, Sequences, FiniteSets, TLC
 
